@@ -2,7 +2,7 @@
 * Unless explicitly stated otherwise all files in this repository are licensed under the Apache-2.0 License.
 * This product includes software developed at Datadog (https://www.datadoghq.com/). Copyright 2022 Datadog, Inc.
 **/
-use swc_common::Spanned;
+use swc_common::Span;
 use swc_ecma_ast::*;
 use swc_ecma_visit::VisitMutWith;
 
@@ -36,7 +36,10 @@ impl AssignAddTransform {
                 // member target would be evaluated twice, so anything but an identifier, `this` or a
                 // literal is evaluated once into a temporal variable first
                 let mut target_assignations = Vec::new();
-                let was_parenthesized = matches!(left_expr, SimpleAssignTarget::Paren(_));
+                let original_parens = match left_expr {
+                    SimpleAssignTarget::Paren(paren) => Some(paren.span),
+                    _ => None,
+                };
                 let mut left_expr = without_parens(left_expr);
                 if let SimpleAssignTarget::SuperProp(super_prop) = &mut left_expr {
                     if let SuperProp::Computed(computed) = &mut super_prop.prop {
@@ -101,8 +104,10 @@ impl AssignAddTransform {
                 if result.is_modified() {
                     // `(let[x]) += 1` must not become the statement `let[x] = ..` (a declaration): when
                     // nothing is put in front of the target, it keeps its parentheses
-                    if was_parenthesized && target_assignations.is_empty() {
-                        left_expr = parenthesized(left_expr);
+                    if let (Some(paren_span), true) =
+                        (original_parens, target_assignations.is_empty())
+                    {
+                        left_expr = parenthesized(left_expr, paren_span);
                     }
                     let new_assign = Expr::Assign(AssignExpr {
                         span,
@@ -148,14 +153,16 @@ fn without_parens(target: &SimpleAssignTarget) -> SimpleAssignTarget {
     target.clone()
 }
 
-fn parenthesized(target: SimpleAssignTarget) -> SimpleAssignTarget {
+/// puts the target back into its parentheses, which keep their own position (the position of the
+/// target would map the closing one to the last byte of the target)
+fn parenthesized(target: SimpleAssignTarget, span: Span) -> SimpleAssignTarget {
     let expr = match target {
         SimpleAssignTarget::Member(member) => Expr::Member(member),
         SimpleAssignTarget::SuperProp(super_prop) => Expr::SuperProp(super_prop),
         other => return other,
     };
     SimpleAssignTarget::Paren(ParenExpr {
-        span: expr.span(),
+        span,
         expr: Box::new(expr),
     })
 }
